@@ -174,9 +174,20 @@ def check_streams_composition(ctx, prog):
     # per stream: unset / explicit PIPE / explicit STDOUT / handle set / path set
     per = [("DEFAULT", 0, 0, 0), ("PIPE", 0, 0, 0), ("STDOUT", 0, 0, 0), ("DEFAULT", 1, 0, 0), ("DEFAULT", 0, 0, 1)]
     states = []
+    combos = list(itertools.product(per, repeat=3))
+    if ctx.tier == "thorough":
+        # additionally: every type x payload combination (72) for one stream at a time, the others unset: 3 x 72 x 16 states
+        full = [(t, h, f, pa) for t in TYPES + ["OOR"] for h in (0, 1) for f in (0, 1) for pa in (0, 1) if t != "OOR"]
+        unset = ("DEFAULT", 0, 0, 0)
+        for k in range(3):
+            for x in full:
+                cb = [unset, unset, unset]
+                cb[k] = x
+                if tuple(cb) not in combos:
+                    combos.append(tuple(cb))
     for sh in itertools.product((0, 1), repeat=4):
         parent, discard, fsh, psh = sh
-        for combo in itertools.product(per, repeat=3):
+        for combo in combos:
             st = State()
             st.mon["nofail"] = True
             st.mem[p["options"]] = fs(("addr", O))
